@@ -45,6 +45,11 @@ type Shape struct {
 // Scenario is one case.
 type Scenario struct {
 	JustInstalled bool  `json:"just_installed"`
+	// FirstRun: the process is started without any user (first run) and the
+	// administrator is created by the install wizard's configure step in the
+	// same process, without a restart before the probing (implies the routes of
+	// JustInstalled).
+	FirstRun bool `json:"first_run,omitempty"`
 	TTLs          int64 `json:"ttl_s"`
 	// Restart: 0 none; 1 clean restart; 2 crash -- of the authentication module
 	// between minting the cookies and probing.
@@ -267,7 +272,7 @@ func discover(n *homesim.Node, c *kernel.Ctx, sc *Scenario) ([]route, error) {
 		if onMux[s.Path] {
 			continue
 		}
-		if !sc.JustInstalled && (strings.HasPrefix(s.Path, "/control/install/") || s.Path == "/install.html") {
+		if !sc.JustInstalled && !sc.FirstRun && (strings.HasPrefix(s.Path, "/control/install/") || s.Path == "/install.html") {
 			// First-run registrations do not exist in a restarted node.
 			continue
 		}
@@ -349,6 +354,36 @@ func (s *sim) mint() error {
 		s.c.Fault("process_crash")
 	}
 	s.c.Fault("clock_past_session_ttl")
+	return nil
+}
+
+// install takes a node that was started on first run (no administrator)
+// through the install wizard's configure step, in the same process.
+func (s *sim) install() error {
+	if !s.n.H.FirstRun() {
+		return fmt.Errorf("harness: the node is not in first-run mode")
+	}
+	// Nothing is asserted before an administrator exists; the answer shows that
+	// the process really is in first-run mode.
+	resp, err := s.n.Do(&homesim.Req{Method: http.MethodGet, Target: "/control/status", RemoteAddr: mintAddr})
+	if err != nil {
+		if hp, ok := err.(*homesim.HandlerPanic); ok {
+			return kernel.Violationf("handler-panic", "GET /control/status before the installation: %v", hp.Value)
+		}
+		return err
+	}
+	s.c.Eventf("first run: GET /control/status -> %d %s", resp.Code, locSuffix(resp.Location))
+	if resp.Code == http.StatusFound && strings.HasSuffix(resp.Location, "install.html") {
+		s.c.Probe("first_run_redirect_to_install")
+	}
+	if err = s.n.Install(); err != nil {
+		return err
+	}
+	if s.n.H.FirstRun() {
+		return fmt.Errorf("harness: the node is still in first-run mode after the install step")
+	}
+	s.c.Fault("install_in_process")
+	s.c.Eventf("install step done: administrator created")
 	return nil
 }
 
@@ -594,15 +629,29 @@ func Run(t *testing.T, scAny any, c *kernel.Ctx) error {
 		return fmt.Errorf("harness: bad scenario")
 	}
 	err := kernel.Bubble(t, func() error {
-		n, err := homesim.New(homesim.Conf{
+		conf := homesim.Conf{
 			SessionTTL: uint32(sc.TTLs), Attempts: 1000, BlockDur: time.Minute,
 			JustInstalled: sc.JustInstalled, Full: true,
-		})
+		}
+		var (
+			n   *homesim.Node
+			err error
+		)
+		if sc.FirstRun {
+			n, err = homesim.NewFirstRun(conf)
+		} else {
+			n, err = homesim.New(conf)
+		}
 		if err != nil {
 			return err
 		}
 		defer n.Close()
 		s := &sim{sc: sc, c: c, n: n}
+		if sc.FirstRun {
+			if err = s.install(); err != nil {
+				return err
+			}
+		}
 		if s.routes, err = discover(n, c, sc); err != nil {
 			return err
 		}
@@ -612,7 +661,7 @@ func Run(t *testing.T, scAny any, c *kernel.Ctx) error {
 				direct++
 			}
 		}
-		c.Eventf("node just_installed=%v ttl_s=%d restart=%d routes=%d direct=%d", sc.JustInstalled, sc.TTLs, sc.Restart, len(s.routes), direct)
+		c.Eventf("node just_installed=%v first_run=%v ttl_s=%d restart=%d routes=%d direct=%d", sc.JustInstalled, sc.FirstRun, sc.TTLs, sc.Restart, len(s.routes), direct)
 		for _, r := range s.routes {
 			c.Eventf("route %s method=%q helper=%v in_src=%v", r.Pattern, r.Method, r.Helper, r.InSrc)
 		}
@@ -684,18 +733,36 @@ func Gen(t *rapid.T, tier string) any {
 		sc.DigestEvery = 512
 		return sc
 	}
+	// The install wizard run in the process itself.  The administrator it
+	// creates has a password hash of the real cost (a fifth of a second per
+	// comparison), so these cases send few requests that carry the
+	// administrator's name in basic credentials.
+	sc.FirstRun = rapid.IntRange(0, 3).Draw(t, "first_run") == 0
+	if sc.FirstRun {
+		sc.JustInstalled = true
+	}
 	if rapid.IntRange(0, 5).Draw(t, "single_route") == 0 {
 		sc.Route = rapid.IntRange(0, 199).Draw(t, "route")
 	}
 	sc.DigestEvery = rapid.SampledFrom([]int{16, 256, 1}).Draw(t, "digest_every")
-	n := rapid.IntRange(1, 24).Draw(t, "n_shapes")
+	maxShapes := 24
+	basics := []int{baNone, baWrongPassword, baWrongUser, baRight}
+	if sc.FirstRun {
+		if sc.Route < 0 {
+			maxShapes = 3
+			basics = []int{baNone, baNone, baWrongUser}
+		} else {
+			maxShapes = 8
+		}
+	}
+	n := rapid.IntRange(1, maxShapes).Draw(t, "n_shapes")
 	for i := 0; i < n; i++ {
 		sc.Shapes = append(sc.Shapes, Shape{
 			Method: rapid.IntRange(0, len(methods)-1).Draw(t, "method"),
 			CT:     rapid.IntRange(0, len(ctypes)-1).Draw(t, "ct"),
 			Body:   rapid.IntRange(0, len(bodies)-1).Draw(t, "body"),
 			Cookie: rapid.IntRange(0, nCookie-1).Draw(t, "cookie"),
-			Basic:  rapid.IntRange(0, nBasic-1).Draw(t, "basic"),
+			Basic:  rapid.SampledFrom(basics).Draw(t, "basic"),
 			Spell:  rapid.SampledFrom(spellTable).Draw(t, "spell"),
 		})
 	}
@@ -724,6 +791,6 @@ var Prop = &kernel.Property{
 		"package internal/next (another binary with its own mux) is not part of the node",
 		"a route is covered if it is on the real mux after the real registration code has run; the space of source programs is not enumerated",
 	},
-	FaultKinds: []string{"clean_restart", "process_crash", "clock_past_session_ttl"},
-	ProbeNames: []string{"request", "non_canonical_spelling", "mux_redirect_to_canonical_path", "install_route_forbidden", "public_route_request", "unauth_forbidden", "unauth_redirected_to_login", "expired_cookie_refused", "logged_out_cookie_refused", "dead_cookie_with_right_basic", "auth_wrong_method_405", "auth_non_json_415", "auth_positive_control_200", "authenticated_static_or_fallthrough", "connect_non_canonical", "static_redirect_for_non_canonical_asset_path", "skipped_authenticated_handler_would_run", "skipped_authenticated_no_declared_method", "state_digest_compared", "route_registered_directly_on_mux"},
+	FaultKinds: []string{"clean_restart", "process_crash", "clock_past_session_ttl", "install_in_process"},
+	ProbeNames: []string{"request", "non_canonical_spelling", "mux_redirect_to_canonical_path", "install_route_forbidden", "public_route_request", "unauth_forbidden", "unauth_redirected_to_login", "expired_cookie_refused", "logged_out_cookie_refused", "dead_cookie_with_right_basic", "auth_wrong_method_405", "auth_non_json_415", "auth_positive_control_200", "authenticated_static_or_fallthrough", "connect_non_canonical", "static_redirect_for_non_canonical_asset_path", "skipped_authenticated_handler_would_run", "skipped_authenticated_no_declared_method", "state_digest_compared", "route_registered_directly_on_mux", "first_run_redirect_to_install"},
 }
